@@ -56,14 +56,24 @@ CLAIMED = {
    note="Trusted: as C07; net.Conn deadline semantics and the wall clock are modelled by the in-memory connection (partial: the TLS handshake arm and the Client side are exercised in the TLS/client suites).",
    technique="Coq proof of arm positions in every trace + real-time scenarios",
    design="3/C15"),
+ "C17": dict(
+   text="Machine-checked proof over the accept-loop model, for EVERY finite sequence of Accept results (induction, no length bound): every back-off is between 5 ms and 1 s (C17_backoff_bounded), follows the doubling law min(1000, 5*2^k) and is reset by a successful accept (C17_doubling_law, C17_next_connection_served); any number of temporary errors never ends the loop and the next connection is served (C17_survives_temporary_errors); the result is the error exactly at the first permanent error before Shutdown and nil for any error or late connection once Shutdown was signalled (C17_result, C17_late_connection_closed). Tie: every sequence over {temporary error, connection, permanent error, shutdown} up to length 4 (thorough 6) plus the 11-step sequence reaching the 1 s cap is run against the real Serve through a fault-injecting listener; sleeps, served connections and the return value are compared with the extracted model.",
+   note="Trusted: Coq kernel; Accept.v hand model tied by correspondence; time.Sleep, net.Error.Temporary, select modelled; sleeps observed via Server.Log and the wall clock.",
+   technique="Coq proof (induction over accept sequences) + exhaustive short sequences against the real Serve",
+   design="3/C17"),
+ "C20": dict(
+   text="Machine-checked proof for ALL supported lists, offers and heaps: empty offer -> the supported list in order (C20_empty_offer); otherwise exactly filter (in supported) offer - order and multiplicity of the offer, none invented, none omitted (C20_subset, C20_none_invented_none_omitted); the reply's backing array is allocated by the call and every pre-existing array - the configuration's, DefaultSupportedVersions' - is unchanged (C20_no_alias, over an explicit model of Go slices and append); an empty configuration is replaced by a fresh copy of the default (C20_defaulting); the regenerated default is 1.4, 1.3, 1.2, 1.1 (C20_default). Tie: the real handler is called (verif build-tag hook) on every (supported, offer) pair over a 4-version universe up to the length bounds; result and memory sharing (element addresses over the full capacity, mutation of the reply) are compared with the extracted model.",
+   note="Trusted: Coq kernel; Discover.v hand model; Go's append semantics modelled (growth policy abstracted); the verif hook file only re-exports the unexported handler.",
+   technique="Coq proof over an explicit slice/heap model + exhaustive small-universe run of the real handler",
+   design="3/C20"),
 }
 
 m = {
  "version": 1,
  "setup_cmd": "./setup.sh",
- "hooks": {"guard": "verif", "enable": "go build -tags verif (the harness is built from /repo's working tree with this tag; no hook files exist in /repo so far)",
+ "hooks": {"guard": "verif", "enable": "go build -tags verif (the harness is built from /repo's working tree with this tag; /repo/verif_hooks.go re-exports the built-in Discover Versions handler)",
            "baseline_off_cmd": "cd /repo && go test -mod=mod -json -vet=off -count=1 -timeout 25m ./...",
-           "source_commits": [], "add_only": True},
+           "source_commits": ["72b57c8"], "add_only": True},
  "engines": [
    {"name": "coq", "path": "coq/", "serves_properties": sorted(CLAIMED), "kind_free_text": "Coq 8.16.1 development: models, theorems (Properties/Cnn.v), regenerated Generated.v"},
    {"name": "translator", "path": "translator/", "serves_properties": sorted(CLAIMED), "kind_free_text": "Go (go/parser): /repo/*.go -> Generated.v on every run"},
